@@ -225,6 +225,26 @@ def double_outage_family():
                     yield sc
 
 
+def readdress_family():
+    """a peer is away for longer than the resync period while the others change runs, and comes back under ANOTHER
+    address; what it is owed (the full snapshot) does not depend on where its first message comes from, nor on whether
+    that message arrives before or after the next attempt towards it."""
+    for names in (['A', 'B'], ['A', 'B', 'C']):
+        others = [n for n in names if n not in ('A', 'B')]
+        for work in (['in A 1'], ['in A 1', 'in A 0'], ['in A 0', 'in A 1', 'in A 2']):
+            for away in (61, 75, 200):
+                for first in ('peer', 'attempt'):
+                    ops = ['in A 0', 'sync', 'down A B', 'down B A'] + [f'down {o} B' for o in others] + [f'down B {o}' for o in others]
+                    for w in work:
+                        ops += [w, 'pass A'] + [f'del A {o}' for o in others]
+                    ops += [f'tick {away}', 'pass A'] + [f'del A {o}' for o in others] + ['tick 3']
+                    ops += ['readdr B', 'up A B', 'up B A'] + [f'up {o} B' for o in others] + [f'up B {o}' for o in others]
+                    if first == 'peer':
+                        ops += ['pass B', 'del B A'] + [f'del B {o}' for o in others]
+                    ops += ['tick 1', 'pass A', 'del A B', 'del A B', 'tick 6', 'pass A', 'del A B', 'pass B', 'del B A', 'heal']
+                    yield {'names': names, 'phens': CONFLICT, 'cache': 1000, 'ops': ops}
+
+
 def racing_engine_family():
     """the same run is finished (or advanced) on a peer and, at the same moment, locally: the peer's notification is being
     applied by the distributed thread while the engine thread processes the datum that does the same to the local copy
